@@ -384,6 +384,23 @@ Proof.
   destruct (initiator_ike_sound _ _ E) as (Hp & Hin & _). destruct H as [(t & Ht & Hn)|H]; auto.
 Qed.
 
+(** pinned behaviour: the IKE check does not require every type to be present; a response lacking PRF, INTEG or ENCR
+    passes it and then fails in key generation (StopIteration -> the IKE_SA is dropped, nothing installed) *)
+Theorem initiator_ike_incomplete mine sa :
+  initiator_ike mine sa = Raise StopIteration <->
+  exists resp rest, sa = resp :: rest /\ is_subset resp mine = true /\
+    (get_transforms resp TYPE_PRF = [] \/ get_transforms resp TYPE_INTEG = [] \/ get_transforms resp TYPE_ENCR = []).
+Proof.
+  unfold initiator_ike, get_transform. split.
+  - destruct sa as [|resp rest]; [discriminate|]. destruct (is_subset resp mine) eqn:Es; cbn [negb]; [|discriminate].
+    intros H. exists resp, rest. split; [reflexivity|]. split; [exact Es|].
+    destruct (get_transforms resp TYPE_PRF); [auto|]. destruct (get_transforms resp TYPE_INTEG); [auto|].
+    destruct (get_transforms resp TYPE_ENCR); [auto|]. cbn in H. discriminate H.
+  - intros (resp & rest & -> & Hs & H). rewrite Hs. cbn [negb].
+    destruct (get_transforms resp TYPE_PRF), (get_transforms resp TYPE_INTEG), (get_transforms resp TYPE_ENCR);
+      try reflexivity; destruct H as [H|[H|H]]; discriminate.
+Qed.
+
 (** C11_initiator_child: an accepted CHILD response proposal is, as a set, the intersection of my offer with it *)
 Theorem initiator_child_sound mine chosen :
   initiator_child_reject intersection mine chosen = false ->
